@@ -12,6 +12,19 @@ Qed.
 Lemma store_eqb_refl s : store_eqb s s = true.
 Proof. unfold store_eqb. now rewrite store_sub_refl. Qed.
 
+Lemma okeys_eqb_refl (l : list okey) : list_eqb okey_eqb l l = true.
+Proof. induction l as [|k l IH]; cbn; [reflexivity|]. now rewrite okey_eqb_refl, IH. Qed.
+
+(** m09r (the paused pass ends like the model's: same actual keys, same failed keys) accepts every pass of the model. *)
+Theorem m09r_sound (c : pcase) : m09r (set_obs c (model_run c)) = true.
+Proof.
+  unfold m09r. destruct (model_run c) as [[w e] r] eqn:E.
+  change (model_run (set_obs c (w, e, r))) with (model_run c). rewrite E.
+  cbn [set_obs pc_res pc_between pc_teardown pc_owner snd].
+  destruct (pc_teardown c), (ow_paused (pc_owner c)), (is_nil (pc_between c)); cbn [negb orb]; try reflexivity.
+  destruct r; try reflexivity. now rewrite !okeys_eqb_refl.
+Qed.
+
 (** C09: a paused phase owner writes nothing, whatever third parties do; with quiet third parties the
     members are unchanged. *)
 Theorem m09p_sound (c : pcase) : m09p (set_obs c (model_run c)) = true.
